@@ -528,6 +528,8 @@ def selection_eval(prog):
             ({"$schema": "http://json-schema.org/draft-04/schema#"}, {"default": mine}, d4, 0),
             ({"$schema": "http://unknown/schema#"}, {}, latest, 1), ({"$schema": "http://unknown/schema#"}, {"default": mine}, latest, 1),
             ({"$schema": "not a uri"}, {}, latest, 1), ({"$schema": "http://json-schema.org/draft-04/schema#frag"}, {}, latest, 1),
+            # a $schema that is there but empty (or "#") names no known draft: it is not the same as no $schema at all
+            ({"$schema": ""}, {}, latest, 1), ({"$schema": ""}, {"default": mine}, latest, 1), ({"$schema": "#"}, {"default": mine}, latest, 1),
         ]
         for schema, kw, want, nwarn in cases:
             got, ws = sel(schema, **kw)
